@@ -20,6 +20,11 @@ def handle (f : List String) : String :=
       let _ := size
       showTuple (Reader.delivered chunks)
     | none => "BAD-CASE"
+  -- the source goes on after a Finish (which forgets what it sent): two streams, one after the other
+  | ["chunks2", _size, cs1, cs2] =>
+    match parseTuple cs1, parseTuple cs2 with
+    | some c1, some c2 => showTuple (Reader.delivered c1 ++ Reader.delivered c2)
+    | _, _ => "BAD-CASE"
   | _ => "BAD-CASE"
 
 end MtailVerif.Driver.C15
